@@ -269,6 +269,17 @@ def shape_scenarios(seed):
 
 # ----------------------------------------------------------------------------- seeded random scripts
 
+def flood_scenarios(seed, n=4200):
+    """More failing requests than the handle's event channel holds (4096) while the user does not poll it: the
+    protocol has to wait for room, every request still gets its terminal event (seeded C13h: try_send drops them).
+    One flood fails at the handle->protocol step (peer not connected, DialOptions::Reject), the other waits behind
+    one dial that fails (all queued requests are failed in one loop)."""
+    return [base(900001, seed + 1, src="shape:flood-reject-unconnected", links=[],
+                 steps=[{"a": "burst", "o": 1, "reqs": [R(i + 1, dial=False) for i in range(n)]}]),
+            base(900002, seed + 2, src="shape:flood-behind-blackholed-dial", links=[L(1, 2, "blackhole")],
+                 steps=[{"a": "burst", "o": 1, "reqs": [R(i + 1) for i in range(n)]}])]
+
+
 def random_bound_scenario(sid, rnd, tr="tcp"):
     """several requesters against one responder with a small bound whose user sits on its answers"""
     nreq = rnd.choice([2, 3, 3])
